@@ -5,6 +5,9 @@ EXTENDS Identity, Json, SequencesExt
 \* documents: 1 = initial {a,b,c,d}; 2 = same delegates, other content; 3 = {a,b} (c, d removed);
 \*            4 = {a,b,c,d,s} (the stranger becomes a delegate)
 MCDocDels == << {"a","b","c","d"}, {"a","b","c","d"}, {"a","b"}, {"a","b","c","d","s"} >>
+\* small world (adoption after one accept, so that histories of 4 changes reach delegate-set
+\* changes): 1 = initial {a,b}; 2 = same delegates, other content; 3 = {a}; 4 = {a,b,s}
+MCDocDels2 == << {"a","b"}, {"a","b"}, {"a"}, {"a","b","s"} >>
 
 \* One case per reachable state whose history is complete: the history (changes in evaluation
 \* order with their parents) and the object the model predicts.
